@@ -249,8 +249,11 @@ def check(prop, tier, seed, jobs):
                 tasks.append(('crosscheck', h.name, {'n': 150, 'seed': seed}))
     bmods = bounded_modules(prop)
     for b in bmods:
-        tasks.append(('bounded', b, {'tier': tier, 'seed': seed, 'budget_s': 25.0 if tier == 'quick' else 600.0,
-                                     'jobs': 1 if tier == 'quick' else max(1, jobs // max(1, len(bmods)))}))
+        # a module that serves this property only through a few of its clauses (EXTRA_BOUNDED: composition with the property that
+        # owns it) runs at the quick size in both tiers - its exhaustive run belongs to the owning property's thorough check
+        btier = 'quick' if prop in EXTRA_BOUNDED.get(b, {}) else tier
+        tasks.append(('bounded', b, {'tier': btier, 'seed': seed, 'budget_s': 25.0 if btier == 'quick' else 600.0,
+                                     'jobs': 1 if btier == 'quick' else max(1, jobs // max(1, len(bmods)))}))
         # ... and once more under non-default ambient conditions (always the quick size; its own worker process)
         tasks.append(('bounded', b, {'tier': 'quick', 'seed': seed + 1, 'budget_s': 25.0, 'jobs': 1, 'ambient': True}))
     results = []
